@@ -50,6 +50,20 @@ func sigClass(sig string) string {
 		return p[0] + "/" + p[1] // composition signature without operand source
 	case "F1lit":
 		return sig
+	case "F5reach":
+		// entry-point/helper counts, declaration order and the set of touched global kinds
+		if len(p) >= 6 {
+			kinds := ""
+			for _, k := range []string{"S", "P", "W", "U", "Q"} {
+				if strings.Contains(p[5], k+"@") {
+					kinds += k
+				}
+			}
+			if kinds == "" {
+				kinds = "-"
+			}
+			return strings.Join(p[:3], "/") + "/t=" + kinds
+		}
 	case "F5":
 		if len(p) >= 3 {
 			return p[0] + "/" + p[1] + "/" + p[2]
